@@ -25,6 +25,7 @@ META = {
     'technique': 'static analysis: abstract interpretation over a doc-shape domain; path-complete interpretation of the field '
                  'selection loops with symbolic field descriptors',
 }
+META['text'] += ' A sole argument is hugged only on paths that established its exact type is list / dict / tuple; nothing of the call follows a comment on its line (C09.c of the same builder).'
 
 
 def run(repo, rep):
